@@ -115,6 +115,16 @@ static struct reb_treecell *reb_tree_add_particle_to_cell(struct reb_simulation*
                 reb_simulation_error(r, "Cannot add two particles with the same coordinates to the tree.");
                 return node;
             }
+            // Particles that are only a few ulp apart cannot be separated any more once the centre of the
+            // child cell stops changing: refining would never end (stack overflow).
+            const double wc = node->w/2./2.;
+            const double cx = node->x + wc*((o1>>0)%2==0?1.:-1);
+            const double cy = node->y + wc*((o1>>1)%2==0?1.:-1);
+            const double cz = node->z + wc*((o1>>2)%2==0?1.:-1);
+            if (cx==node->x && cy==node->y && cz==node->z){
+                reb_simulation_error(r, "Cannot add two particles with (nearly) the same coordinates to the tree.");
+                return node;
+            }
         }
 		node->oct[o1] = reb_tree_add_particle_to_cell(r, node->oct[o1], node->pt, node, o1); 
 		node->oct[o2] = reb_tree_add_particle_to_cell(r, node->oct[o2], pt, node, o2);
